@@ -186,13 +186,19 @@ func (q *c05Req) describe(sy *symbols, l *hx.Line) {
 	valuesKV(l, "pf.", r.PostForm)
 	u, p, ok := r.BasicAuth()
 	l.B("basic", ok)
+	// descriptive only (known-finding matching): the secret-type credential of the request carries no secret
+	nosecret := false
 	if ok {
 		l.S("b.user", u).S("b.pass", p)
 		uu, err := url.QueryUnescape(u)
 		l.B("b.user.ok", err == nil).S("b.user.un", uu)
 		pp, err := url.QueryUnescape(p)
 		l.B("b.pass.ok", err == nil).S("b.pass.un", pp)
+		nosecret = err == nil && pp == ""
+	} else if vs := r.Form["client_secret"]; len(vs) == 0 || vs[len(vs)-1] == "" {
+		nosecret = true
 	}
+	l.B("p.nosecret", nosecret)
 	if q.assertion != "" {
 		l.S("tok.str", q.assertion)
 		sy.tokenKV(l, q.assertion)
@@ -224,12 +230,30 @@ func c05Stream(r *hx.Rand, tier string, n int, w *bufio.Writer) map[string]int {
 		router := hx.Pick(r, "provider", "legacy")
 		// a presentation drawn early so that configuration and material can be made for the case it needs
 		prePres := hx.Pick(r, "right", "right", "right", "right", "cc-grant-param", "assertion-right", "basic-wrong+form-public", "basic-unescaped", "basic-right")
+		// half of the cases: the presentation is a CROSS of independent fields (Authorization header x form client_id x client_secret x
+		// client_assertion x client_assertion_type), so that partially filled presentations occur; the other half: the named kinds
+		cross := r.Chance(50)
+		if cross {
+			prePres = "right"
+		}
+		// part of the cross is drawn correlated: the Authorization header (or the client assertion) authenticates client A as it is
+		// registered while the BODY names another client B (one that lacks the grant in use, an unknown id, any other client)
+		// (the grant material belongs to A, or - every other time - to B)
+		split := cross && r.Chance(16)
+		splitMaterialB := split && r.Chance(50)
+		// the storage's AuthorizeClientIDSecret only compares the stored secret (example/server/storage) instead of also refusing
+		// clients that are not registered for a secret method
+		compareOnly := r.Chance(25)
+		if cross {
+			compareOnly = r.Chance(65)
+		}
 		cfg := opbed.Config{Router: router, S256: true, Post: r.Chance(60), PrivateKeyJWT: r.Chance(75), Refresh: r.Chance(75),
 			Caps: refstore.Caps{CC: r.Chance(75), TE: r.Chance(75), Device: r.Chance(75)}}
 		if prePres == "basic-right" {
 			cfg.Post = r.Chance(25) // a client registered for client_secret_post, mostly while that method is switched off
 		}
 		st := refstore.New(refstore.SigningKeySpec{Kid: "sig1", Alg: jose.RS256, Priv: hx.Keys()[0].Priv, Pub: hx.Keys()[0].Pub})
+		st.SecretCompareOnly = compareOnly
 		bed := c05BedOn(cfg, st)
 		twin := c05BedOn(opbed.Config{Router: "provider", S256: true, Post: true, PrivateKeyJWT: true, Refresh: true,
 			Caps: refstore.Caps{CC: true, TE: true, Device: true}}, st)
@@ -254,8 +278,15 @@ func c05Stream(r *hx.Rand, tier string, n int, w *bufio.Writer) map[string]int {
 		// a secret-registered client that also has a registered key (e.g. for the jwt-bearer grant)
 		webkey := opbed.WebClient("webkey", "secret-wk", "https://rp.example/cb")
 		webkey.Keys = []refstore.ClientKey{{Kid: "wk1", Pub: hx.Keys()[2].Pub}}
+		// the remaining corners of auth method x application type: a native application with private_key_jwt, a user-agent one without authentication
+		natpk := opbed.NativeClient("natpk", "https://rp.example/cb")
+		natpk.Auth = oidc.AuthMethodPrivateKeyJWT
+		natpk.Keys = []refstore.ClientKey{{Kid: "npk1", Pub: hx.Keys()[1].Pub}}
+		natpk.Grants = append(natpk.Grants, oidc.GrantTypeTokenExchange)
+		uanone := opbed.NativeClient("uanone", "https://rp.example/cb")
+		uanone.App = op.ApplicationTypeUserAgent
 		cls = append(cls, &flowClient{c: limited}, &flowClient{c: natsec}, &flowClient{c: natpost}, &flowClient{c: webnone}, &flowClient{c: enc},
-			&flowClient{c: webkey, key: hx.Keys()[2], kid: "wk1"}, &flowClient{c: pct})
+			&flowClient{c: webkey, key: hx.Keys()[2], kid: "wk1"}, &flowClient{c: pct}, &flowClient{c: natpk, key: hx.Keys()[1], kid: "npk1"}, &flowClient{c: uanone})
 		for _, fc := range cls {
 			st.AddClient(fc.c)
 		}
@@ -265,6 +296,14 @@ func c05Stream(r *hx.Rand, tier string, n int, w *bufio.Writer) map[string]int {
 			byID[fc.c.ID] = fc
 		}
 		endpoint := hx.Pick(r, endpoints...)
+		if cross {
+			endpoint = hx.Pick(r, "token", "token", "token", "token", "token", "token", "token", "token", "introspect", "introspect", "introspect", "introspect",
+				"introspect", "introspect", "introspect", "revoke", "revoke", "revoke", "revoke", "device_authorization")
+		}
+		if split {
+			endpoint = hx.Pick(r, "token", "token", "token", "token", "token", "token", "token", "introspect", "introspect", "introspect", "revoke", "revoke", "revoke",
+				"device_authorization", "device_authorization", "device_authorization", "device_authorization", "device_authorization", "device_authorization", "device_authorization")
+		}
 		grant := ""
 		if endpoint == "token" {
 			grant = hx.Pick(r, grants...)
@@ -273,6 +312,18 @@ func c05Stream(r *hx.Rand, tier string, n int, w *bufio.Writer) map[string]int {
 		if r.Chance(35) {
 			// the corners of auth method x application type
 			target = byID[hx.Pick(r, "web", "pub", "post", "pk", "natsec", "natsec", "natpost", "natpost")]
+		}
+		if cross && r.Chance(50) {
+			// registrations without a secret method (where a partially filled presentation could pass for authentication) and their counterparts
+			target = byID[hx.Pick(r, "pub", "webnone", "uanone", "pk", "natpk", "web", "natsec", "post")]
+		}
+		var splitA *flowClient
+		if split {
+			// A: a client that can authenticate in the header / by assertion and holds every grant
+			splitA = byID[hx.Pick(r, "web", "web2", "natsec", "post", "pk", "natpk", "webkey", "enc")]
+			if !splitMaterialB {
+				target = splitA
+			}
 		}
 		if prePres == "cc-grant-param" && r.Chance(60) {
 			target = byID["pk"]
@@ -294,8 +345,11 @@ func c05Stream(r *hx.Rand, tier string, n int, w *bufio.Writer) map[string]int {
 			}
 		}
 
-		l := hx.NewLine("C05").I("case", int64(i)).S("router", router).B("post", cfg.Post).B("pkjwt", cfg.PrivateKeyJWT).B("refresh", cfg.Refresh).
-			B("cap.cc", cfg.Caps.CC).B("cap.te", cfg.Caps.TE).B("cap.device", cfg.Caps.Device).S("issuer", opbed.Issuer).S("endpoint", endpoint)
+		head := func(caseNo int, endpoint string) *hx.Line {
+			return hx.NewLine("C05").I("case", int64(caseNo)).S("router", router).B("post", cfg.Post).B("pkjwt", cfg.PrivateKeyJWT).B("refresh", cfg.Refresh).
+				B("cap.cc", cfg.Caps.CC).B("cap.te", cfg.Caps.TE).B("cap.device", cfg.Caps.Device).B("st.cmp", compareOnly).S("issuer", opbed.Issuer).S("endpoint", endpoint)
+		}
+		l := head(i, endpoint)
 
 		// ---- genuine grant material for `target`, made at the twin provider
 		q := &c05Req{path: "/oauth/token"}
@@ -420,8 +474,11 @@ func c05Stream(r *hx.Rand, tier string, n int, w *bufio.Writer) map[string]int {
 
 		// ---- the presentation under test
 		presenter := target
-		if r.Chance(10) {
+		if r.Chance(10) && !split {
 			presenter = cls[r.Intn(len(cls))]
+		}
+		if split {
+			presenter = splitA
 		}
 		other := cls[r.Intn(len(cls))]
 		mkAssertion := func(key *hx.Key, kid, iss string, iat, exp int64) string {
@@ -456,6 +513,119 @@ func c05Stream(r *hx.Rand, tier string, n int, w *bufio.Writer) map[string]int {
 			}
 			if q.assertion != "" {
 				q.body = append(q.body, [2]string{"assertion", q.assertion})
+			}
+		} else if cross {
+			// ---- every field drawn on its own
+			id, sec := presenter.c.ID, presenter.c.Secret
+			akey, akid := presenter.key, presenter.kid
+			if akey == nil {
+				akey, akid = pk.key, pk.kid // an assertion naming a client that has no registered key
+			}
+			xHdr := hx.Pick(r, "none", "none", "none", "none", "none", "none", "none", "none", "good", "good", "good", "wrong", "wrong", "wrong", "empty", "empty", "empty", "empty", "malformed", "malformed")
+			xID := hx.Pick(r, "none", "none", "own", "own", "own", "own", "own", "foreign", "foreign", "unknown")
+			xSec := hx.Pick(r, "none", "none", "empty", "good", "wrong")
+			xAs := hx.Pick(r, "none", "none", "none", "none", "none", "none", "none", "none", "empty", "empty", "empty", "good", "good", "good", "good", "forged", "forged", "other", "other", "other")
+			xAt := hx.Pick(r, "none", "none", "none", "none", "none", "none", "none", "jwt-bearer", "jwt-bearer", "jwt-bearer", "jwt-bearer", "jwt-bearer", "jwt-bearer", "jwt-bearer", "jwt-bearer", "jwt-bearer", "garbage", "garbage", "garbage", "garbage")
+			// the client a foreign client_id names: half of the time one that is NOT registered for the grant in use
+			foreign := other.c.ID
+			useGrant := oidc.GrantType(grant)
+			if endpoint == "device_authorization" {
+				useGrant = oidc.GrantTypeDeviceCode
+			}
+			if useGrant != "" && r.Chance(50) {
+				var lacking []string
+				for _, fc := range cls {
+					has := false
+					for _, g := range fc.c.Grants {
+						has = has || g == useGrant
+					}
+					if !has {
+						lacking = append(lacking, fc.c.ID)
+					}
+				}
+				if len(lacking) > 0 {
+					foreign = lacking[r.Intn(len(lacking))]
+				}
+			}
+			if split {
+				xHdr, xAs, xAt = "good", "none", "none"
+				if presenter.c.Auth == oidc.AuthMethodPrivateKeyJWT {
+					xHdr, xAs, xAt = "none", "good", "jwt-bearer"
+				}
+				xID = hx.Pick(r, "foreign", "foreign", "foreign", "unknown")
+				xSec = hx.Pick(r, "none", "none", "none", "good", "wrong")
+				stats["x-split-identity-material-of-header-client"]++
+				if splitMaterialB {
+					xID, foreign = "foreign", target.c.ID
+					stats["x-split-identity-material-of-header-client"]--
+					stats["x-split-identity-material-of-body-client"]++
+				}
+			}
+			switch xHdr {
+			case "good":
+				q.basic(id, sec)
+			case "wrong":
+				q.basic(id, hx.Pick(r, "wrong", sec+"x"))
+			case "empty":
+				q.basic(id, "")
+			case "malformed":
+				q.hasBasic, q.authRaw = true, hx.Pick(r, id+"%zz:"+url.QueryEscape(sec), url.QueryEscape(id)+":"+sec+"%", id+"%2", id)
+			}
+			switch xID {
+			case "own":
+				q.body = append(q.body, [2]string{"client_id", id})
+			case "foreign":
+				q.body = append(q.body, [2]string{"client_id", foreign})
+			case "unknown":
+				q.body = append(q.body, [2]string{"client_id", "nobody"})
+			}
+			switch xSec {
+			case "empty":
+				q.body = append(q.body, [2]string{"client_secret", ""})
+			case "good":
+				q.body = append(q.body, [2]string{"client_secret", sec})
+			case "wrong":
+				q.body = append(q.body, [2]string{"client_secret", hx.Pick(r, "wrong", sec+"x", "secret-web")})
+			}
+			switch xAs {
+			case "empty":
+				q.body = append(q.body, [2]string{"client_assertion", ""})
+			case "good":
+				q.assertion = mkAssertion(akey, akid, id, nowS-5, nowS+300)
+			case "forged":
+				q.assertion = mkAssertion(hx.Keys()[3], akid, id, nowS-5, nowS+300)
+			case "other":
+				// a valid assertion of ANOTHER client that has a registered key
+				oc := pk
+				if presenter == pk {
+					oc = byID["natpk"]
+				}
+				q.assertion = mkAssertion(oc.key, oc.kid, oc.c.ID, nowS-5, nowS+300)
+			}
+			if q.assertion != "" {
+				q.body = append(q.body, [2]string{"client_assertion", q.assertion})
+			}
+			switch xAt {
+			case "jwt-bearer":
+				q.body = append(q.body, [2]string{"client_assertion_type", oidc.ClientAssertionTypeJWTAssertion})
+			case "garbage":
+				q.body = append(q.body, [2]string{"client_assertion_type", hx.Pick(r, "urn:ietf:params:oauth:client-assertion-type:saml2-bearer", "jwt-bearer", "x")})
+			}
+			pres = "cross:" + xHdr
+			l.S("x.hdr", xHdr).S("x.id", xID).S("x.sec", xSec).S("x.as", xAs).S("x.at", xAt)
+			stats["x-hdr-"+xHdr]++
+			stats["x-id-"+xID]++
+			stats["x-sec-"+xSec]++
+			stats["x-as-"+xAs]++
+			stats["x-at-"+xAt]++
+			if xAs == "none" || xAs == "empty" {
+				secretless := (xHdr == "none" && (xSec == "none" || xSec == "empty")) || xHdr == "empty"
+				if secretless && xAt != "none" {
+					stats["x-partial-type-without-assertion-or-secret"]++
+				}
+				if secretless {
+					stats["x-no-secret-no-assertion"]++
+				}
 			}
 		} else {
 			pres = hx.Pick(r, "right", "right", "right", "right", "basic-right", "post-right", "basic-wrong", "post-wrong", "basic-empty", "post-empty",
@@ -656,6 +826,12 @@ func c05Stream(r *hx.Rand, tier string, n int, w *bufio.Writer) map[string]int {
 		}
 		stats["endpoint-"+eg]++
 		stats["router-"+router]++
+		if compareOnly {
+			stats["storage-compares-secret-only"]++
+		} else {
+			stats["storage-checks-auth-method"]++
+		}
+		stats["registration-"+string(presenter.c.Auth)+"-"+fmt.Sprint(int(presenter.c.App))]++
 		stats["pres-"+pres]++
 		stats["material-"+material]++
 		if reached {
@@ -672,6 +848,61 @@ func c05Stream(r *hx.Rand, tier string, n int, w *bufio.Writer) map[string]int {
 			stats["refused-"+resp.OAuthError()]++
 		}
 		fmt.Fprintln(w, l.String())
+
+		// ---- second step of a device flow STARTED AT THE PROVIDER UNDER TEST: the user approves the user code, then the client the
+		// device authorization was stored for polls the token endpoint, authenticating the way it is registered (an unknown one: bare id)
+		if endpoint == "device_authorization" && success && actor != "" {
+			dc, uc := resp.Str("device_code"), resp.Str("user_code")
+			if st.ApproveDevice(uc, "user1") != nil {
+				continue
+			}
+			l2 := head(n+i, "token").S("dev.code", dc).S("dev.client", actor).B("dev.done", true)
+			clientsKV(l2, cls)
+			q2 := &c05Req{path: "/oauth/token", body: [][2]string{{"grant_type", gDevice}, {"device_code", dc}}}
+			poller := byID[actor]
+			switch {
+			case poller == nil || poller.c.Auth == oidc.AuthMethodNone:
+				q2.body = append(q2.body, [2]string{"client_id", actor})
+			case poller.c.Auth == oidc.AuthMethodPrivateKeyJWT:
+				q2.assertion = mkAssertion(poller.key, poller.kid, actor, nowS-5, nowS+300)
+				q2.body = append(q2.body, [2]string{"client_assertion", q2.assertion}, [2]string{"client_assertion_type", oidc.ClientAssertionTypeJWTAssertion})
+			case poller.c.Auth == oidc.AuthMethodPost:
+				q2.body = append(q2.body, [2]string{"client_id", actor}, [2]string{"client_secret", poller.c.Secret})
+			default:
+				q2.basic(actor, poller.c.Secret)
+			}
+			l2.S("pres", "poll-after-device-authorization").S("presenter", actor).S("target", actor).S("material", "approved-device-code-of-this-provider").S("grant.place", "body").B("stripped", false)
+			q2.describe(sy, l2)
+			waitClearOfSecondEdge()
+			t0 := time.Now()
+			resp2 := bed.Do(q2.build())
+			l2.I("now0", t0.UnixNano()).I("now1", time.Now().UnixNano())
+			success2 := resp2.Status == 200 && (resp2.Str("access_token") != "" || resp2.Str("id_token") != "")
+			actor2 := ""
+			for _, j := range resp2.Journal {
+				for _, m := range []string{"CreateAccessToken(", "CreateAccessAndRefreshTokens("} {
+					if strings.HasPrefix(j, m) {
+						if args := strings.Split(strings.TrimSuffix(strings.TrimPrefix(j, m), ")"), ","); len(args) > 1 {
+							actor2 = args[1]
+						}
+					}
+				}
+			}
+			_, isErrDoc2 := resp2.JSON["error"]
+			if resp2.Panicked {
+				l2.S("obs", "panic")
+			} else {
+				l2.S("obs", "done")
+			}
+			l2.I("o.status", int64(resp2.Status)).B("o.success", success2).B("o.errdoc", isErrDoc2).S("o.err", resp2.OAuthError()).S("o.actor", actor2)
+			stats["history-device-authorization+approval+poll"]++
+			if success2 {
+				stats["history-poll-success"]++
+			} else {
+				stats["history-poll-refused-"+resp2.OAuthError()]++
+			}
+			fmt.Fprintln(w, l2.String())
+		}
 	}
 	return stats
 }
